@@ -4,15 +4,18 @@ package main
 
 import (
 	"bytes"
+	"context"
 	"fmt"
 	"io"
 	"io/ioutil"
+	"net"
 	"os"
 	"os/exec"
 	"path/filepath"
 	"strconv"
 	"strings"
 	"sync"
+	"sync/atomic"
 	"time"
 	"unicode/utf8"
 
@@ -37,6 +40,12 @@ func init() {
 	r8Wrap("C03", r8C03)
 	r8Wrap("C12", r8C12)
 	r8Wrap("C06", r8C06)
+	r8Wrap("C20", r8C20)
+	replayers["C20H"] = func(c *ctx, in []string) {
+		a, _ := strconv.Atoi(in[0])
+		b, _ := strconv.Atoi(in[1])
+		c20H(c, a, b, in[2])
+	}
 	for _, id := range []string{"C04", "C07", "C18"} {
 		r8Wrap(id, r8RDE)
 	}
@@ -606,6 +615,75 @@ func r8C08RM(c *ctx) {
 				if m.OpCode.IsControl() {
 					c08H(c, side, byte(m.OpCode), m.Payload, "-", "hcm2", "-")
 				}
+			}
+		}
+	}
+}
+
+// r8-C20: the context ends while the REQUEST is still being written: a long Dialer.Header does not fit the write buffer,
+// so the handshake writes to the conn several times, and the peer does not read. The error is the context's error.
+//
+//	C20H <header bytes> <wbuf> <mode> -> <returned|hang> <error class> <closed at return 0|1>
+func c20H(c *ctx, hdrlen, wbuf int, mode string) {
+	var tc *c20TrackConn
+	d := ws.Dialer{
+		WriteBufferSize: wbuf,
+		Header:          ws.HandshakeHeaderBytes([]byte("X-Long: " + strings.Repeat("h", hdrlen) + "\r\n")),
+		NetDial: func(ctx context.Context, network, addr string) (net.Conn, error) {
+			cl, _ := net.Pipe() // the far end never reads: every Write blocks until a deadline
+			tc = &c20TrackConn{Conn: cl}
+			return tc, nil
+		}}
+	ctx := context.Background()
+	var cancel context.CancelFunc = func() {}
+	switch mode {
+	case "ctxdl":
+		ctx, cancel = context.WithTimeout(ctx, 60*time.Millisecond)
+	case "cancel":
+		ctx, cancel = context.WithCancel(ctx)
+		go func() { time.Sleep(60 * time.Millisecond); cancel() }()
+	case "done":
+		ctx, cancel = context.WithCancel(ctx)
+		cancel()
+	}
+	defer cancel()
+	type res struct {
+		err error
+		at  bool
+	}
+	done := make(chan res, 1)
+	go func() {
+		_, _, _, err := d.Dial(ctx, "ws://silent.example/")
+		done <- res{err, tc == nil || atomic.LoadInt32(&tc.closed) == 1}
+	}()
+	out, cls, at := "returned", "-", 0
+	select {
+	case r := <-done:
+		at = b2i(r.at)
+		switch {
+		case r.err == nil:
+			cls = "nil"
+		case r.err == context.DeadlineExceeded:
+			cls = "deadline"
+		case r.err == context.Canceled:
+			cls = "canceled"
+		default:
+			cls = "other"
+		}
+	case <-time.After(3 * time.Second):
+		out = "hang"
+		if tc != nil {
+			tc.Close()
+		}
+	}
+	c.emit("C20H %d %d %s -> %s %s %d", hdrlen, wbuf, mode, out, cls, at)
+}
+
+func r8C20(c *ctx) {
+	for _, mode := range []string{"ctxdl", "cancel", "done"} {
+		for _, hl := range []int{0, 5000, 20000} {
+			for _, wbuf := range []int{0, 64} {
+				c20H(c, hl, wbuf, mode)
 			}
 		}
 	}
